@@ -14,6 +14,7 @@ reverse look-ups from EFCore).
 import json
 import os
 import random
+import signal
 
 from .. import efx, gen, tlc, tracecheck
 from ..common import work_dir, cleanup, seed_from_env, MachineryError
@@ -110,7 +111,13 @@ def detached(ns, live):
 
 def op_record(op, args):
     rec = {"name": op, "x": "", "i": 0, "l": [], "n": 0}
-    if op in ("append", "remove"):
+    if op in ("extend_gen", "iadd_gen"):
+        rec["name"] = op.split("_")[0]          # the same Python operation, written with a generator
+        rec["l"] = list(args[0])
+    elif op == "iadd_self":
+        rec["name"] = "iadd"                    # lst += lst: the argument is the list's own content (args[0], read before)
+        rec["l"] = list(args[0])
+    elif op in ("append", "remove"):
         rec["x"] = args[0]
     elif op == "insert":
         rec["i"], rec["x"] = args
@@ -148,11 +155,18 @@ class LinkHistory:
         return rec
 
     def attempt(self, fn):
+        def _alarm(*_a):
+            raise TimeoutError("the operation did not terminate within 20 s")
+        old = signal.signal(signal.SIGALRM, _alarm)
+        signal.alarm(20)
         try:
             fn()
             return "none"
         except Exception as ex:   # noqa: the exception class is part of the recorded outcome
             return type(ex).__name__
+        finally:
+            signal.alarm(0)
+            signal.signal(signal.SIGALRM, old)
 
     def list_op(self, obj, attr, op, args):
         exc = self.attempt(lambda: efx.apply_edit_live(self.ns, None, self.live, ("listop", obj, attr, op, args)))
@@ -317,9 +331,14 @@ def random_histories(ns, out, tid0, seeds, n_ops):
                     ev = h.set_list(obj, attr, new)
                 else:
                     op = rng.choice(["append", "insert", "extend", "iadd", "imul", "pop", "remove", "delitem",
-                                     "setitem", "clear"])
+                                     "setitem", "clear", "extend_gen", "iadd_gen", "iadd_self"])
                     x = rng.choice(pool)
+                    if op == "iadd_self" and (len(cur) > 2 or not cur):
+                        op = "iadd_gen"
                     args = {"append": [x], "insert": [rng.randint(0, 3), x],
+                            "extend_gen": [[rng.choice(pool) for _ in range(rng.choice([1, 2]))]],
+                            "iadd_gen": [[rng.choice(pool) for _ in range(rng.choice([1, 2]))]],
+                            "iadd_self": [list(cur)],
                             "extend": [[rng.choice(pool) for _ in range(rng.choice([0, 1, 2]))]],
                             "iadd": [[rng.choice(pool) for _ in range(rng.choice([0, 1, 2]))]],
                             "imul": [rng.choice([0, 1, 2, 3])] if len(cur) <= 1 else [rng.choice([0, 1, 2])],
@@ -378,12 +397,36 @@ def random_histories(ns, out, tid0, seeds, n_ops):
                                          and live[n].systems)[0]], "server", live["sv_B"])),
             ("System(new, [usage pattern of an existing system])",
              lambda: ns.classes["System"]("third", usage_patterns=[live[ups[0]]])),
+            ("journey.uj_steps.append(step of other system)",
+             lambda: live[live[ups[0]].usage_journey.name].uj_steps.append(live["s_B"])),
+            ("step.jobs.insert(0, job of other system)",
+             lambda: [getattr(live[s.name], "jobs").insert(0, live["j_B"])
+                      for s in live[live[ups[0]].usage_journey.name].uj_steps[:1]] or
+                     live[live[ups[0]].usage_journey.name].uj_steps.extend([live["s_B"]])),
         ]
         what, fn = attempts[seed % len(attempts)]
         if "job.server" in what and not any(type(o).__name__ == "Job" and not n.endswith("_B") and o.systems
                                             for n, o in live.items()):
             what, fn = attempts[0]          # no job of the first system to re-point
         h.cross_link(what, fn)
+        # a refused operation may leave nothing behind: the history goes on with ordinary list operations
+        if h.events[-1]["exc"] != "none":
+            live = h.live
+            for _ in range(4):
+                cands = [(n, LIST_ATTRS[type(o).__name__]) for n, o in live.items()
+                         if type(o).__name__ in ("UsageJourney", "UsageJourneyStep") and not n.endswith("_B")
+                         and len(getattr(o, LIST_ATTRS[type(o).__name__])) > 0]
+                if not cands:
+                    break
+                # the list on which the refused mutation was attempted first
+                first = [c for c in cands if c[0] == live[ups[0]].usage_journey.name or
+                         c[0] in [s.name for s in live[ups[0]].usage_journey.uj_steps[:1]]]
+                obj, attr = rng.choice(sorted(first or cands))
+                cur = [x.name for x in getattr(live[obj], attr)]
+                op, args = rng.choice([("remove", [rng.choice(cur)]), ("pop", []), ("delitem", [0])])
+                h.list_op(obj, attr, op, args)
+                if h.events[-1]["exc"] != "none":
+                    break
         events += h.events
         out.nontrivial |= {("history", seed, k) for k in range(len(h.events))}
     return events, tid, kinds_seen
